@@ -138,7 +138,7 @@ class Builder:
         if k == 'disk':
             if d.get('json_labels'):
                 self._init_roots(self.roots[d['root']], labels='JsonLabels')
-            return c.CacheToDisk.simple(*d['names'], root=self.roots[d['root']]) if not d.get('impure') else \
+            return c.CacheToDisk.simple(*d['names'], root=self.roots[d['root']], labels=d.get('labels')) if not d.get('impure') else \
                 self._disk_impure(d)
         if k == 'columns':
             return self._columns(d)
